@@ -43,6 +43,12 @@ def main():
             now = func_shas(tree)
             changed = sorted(q for q in now if now[q] != base.get(q))
             props = sorted(p for p, fs in pf.items() if set(fs) & set(changed))
+            # NEUTRAL_SKIP=C02,C03,...: leave out the named (slow) checks where every changed function is also a unit of another
+            # check that is run - a function unit's verdict does not depend on the property it is run under
+            skip = [x for x in os.environ.get("NEUTRAL_SKIP", "").split(",") if x]
+            keep = [p for p in props if p not in skip]
+            if all(any(q in pf[p] for p in keep) for q in changed if any(q in pf[p] for p in props)):
+                props = keep
             entry = results.setdefault(nid, {})
             entry["changed_functions"] = changed
             for p in props:
